@@ -2,7 +2,7 @@
    Only ExtrOcamlBasic is used: bool, option, unit, list, prod, sumbool, sumor and andb/orb are
    mapped to their OCaml counterparts; Z, positive, N, nat stay Coq datatypes. *)
 From Coq Require Import ZArith List.
-From K Require Import Lib.Types Model.Machine Model.Bus Model.Cost Model.Addressing Model.Exec Model.Periph Model.Ops Spec.Price Spec.MemMap Spec.ISA Spec.Domains Spec.PortSpec Spec.TimerSpec Model.Elf Spec.ElfSpec.
+From K Require Import Lib.Types Model.Machine Model.Bus Model.Cost Model.Addressing Model.Exec Model.Periph Model.Ops Spec.Price Spec.MemMap Spec.ISA Spec.Domains Spec.PortSpec Spec.TimerSpec Model.Elf Model.Run Spec.ElfSpec Spec.RunRef.
 Require Extraction.
 Require Import ExtrOcamlBasic.
 Extraction Language OCaml.
@@ -17,6 +17,7 @@ Extraction "model.ml"
   Domains.is_exc ISA.reg32 Domains.dom_entry Domains.ref_entry Domains.ref_step Domains.ref_run Domains.ref_run_init Domains.boundary_ref Domains.mes_ref Domains.is_mes_call Domains.dom_mes Domains.exec_dom Domains.data_ok
   PortSpec.pstep PortSpec.p_read PortSpec.p_out PortSpec.port0
   TimerSpec.states_ref TimerSpec.write_tcr_ref TimerSpec.side_ok TimerSpec.mkTmr
+  Run.escape RunRef.ref_run_t RunRef.tmr0
   ElfSpec.expected_of ElfSpec.candidates ElfSpec.wf_elf ElfSpec.img_end ElfSpec.ref_phdrs
   Price.price_ref Price.settings_of_area Price.on_chip_ram Price.area_of Price.dom_c19
   Z.of_nat Z.to_nat Z.add Z.mul Z.opp Z.div Z.modulo Z.eqb Z.ltb Z.leb Z.pow.
